@@ -186,6 +186,8 @@ def isubst(t, venv, lenv, F):
             r = iadd(r, imulc(a2, k))
         elif a[0] == "sz":
             r = iadd(r, imulc(isize(w, lsub(a[1], lenv)), k))
+        elif a[0] == "ivar" and lenv and a[1] in lenv.get("__ivars__", {}):
+            r = iadd(r, imulc(lenv["__ivars__"][a[1]], k))
         else:
             r = iadd(r, ("int", w, 0, ((a, k % (1 << w)),)))
     return r
@@ -326,12 +328,29 @@ def piece_slice(p, delta, ln, F):
         c = ln.div_sym(el)
         if q is not None and c is not None:
             return _mkmap(var, lo + q, lo + q + c, el, t, F)
-        # inside a single element?
-        q, r = _divmod_lin(delta, el, F)
-        if q is not None and F.le(r + ln, el):
-            inst = binst(t, var, lo + q, F)
-            return bslice(inst, r, ln, F)
-        raise Undecided("slice of map not element aligned: delta=%r len=%r elen=%r" % (delta, ln, el))
+        q0, r0 = _divmod_lin(delta, el, F)
+        q1, r1 = _divmod_lin(delta + ln, el, F)
+        if q0 is None or q1 is None:
+            raise Undecided("slice of map not element aligned: delta=%r len=%r elen=%r" % (delta, ln, el))
+        if F.prove_eq(q0 - q1):
+            inst = binst(t, var, lo + q0, F)
+            return bslice(inst, r0, r1 - r0, F)
+        if r0.is_const() and r0.c == 0 and F.prove_ge(q1 - q0):
+            out = _mkmap(var, lo + q0, lo + q1, el, t, F)
+            if not (r1.is_const() and r1.c == 0):
+                tail = binst(t, var, lo + q1, F)
+                out = out + bslice(tail, ZERO, r1, F)
+            return out
+        if not F.prove_ge(q1 - q0 - 1):
+            raise Undecided("slice of map: cannot order elements %r, %r" % (q0, q1))
+        out = ()
+        head = binst(t, var, lo + q0, F)
+        out = out + bslice(head, r0, el - r0, F)
+        out = out + _mkmap(var, lo + q0 + 1, lo + q1, el, t, F)
+        if not (r1.is_const() and r1.c == 0):
+            tail = binst(t, var, lo + q1, F)
+            out = out + bslice(tail, ZERO, r1, F)
+        return out
     raise ValueError(p)
 
 
@@ -359,7 +378,7 @@ def _divmod_lin(l, e, F):
         rem = rem + cr
     else:
         rem = rem + l.c
-    if F.prove_ge(rem) and F.prove_ge(e - 1 - rem):
+    if F.prove_ge(rem) and F.prove_ge(e - rem):
         return qd, rem
     return None, None
 
